@@ -278,9 +278,11 @@ func (g *Gen) Config() *Config {
 		c = g.BlnConfig()
 	}
 	// rarely used policy-independent options: class control with the pod QoS class as default class makes the pipeline
-	// decorate every adjustment/update; the Prometheus exporter brings the metrics gatherer and its lock into play
+	// decorate every adjustment/update. (The Prometheus exporter is only switched on by the race mode, for the first
+	// instance of a process: policies register their collectors in a process-wide registry, a second instance in the same
+	// process makes the gatherer refuse to start - an artefact of running many instances per process.)
 	if g.R.Chance(1, 6) {
-		c.Common = &CommonCfg{RDTQoSDefault: g.R.Chance(1, 2), BlockIOQoSDefault: g.R.Chance(1, 2), PrometheusExport: g.R.Chance(1, 2)}
+		c.Common = &CommonCfg{RDTQoSDefault: g.R.Chance(1, 2), BlockIOQoSDefault: g.R.Chance(1, 2)}
 	}
 	return c
 }
